@@ -154,11 +154,13 @@ def val_getattr(C, v, attr, st, fr):
     if ex.instance == 'real' and attr in ('numerator', 'denominator'):
         key = ('numden', v.t.get_id())
         nd = st.ghost.get(key)
+        if nd is not None and not nd[2].eq(v.t):
+            nd = None
         if nd is None:
             n, m = fresh_int('num'), fresh_int('den')
             st.assume(m >= 1)
             st.assume(z3.ToReal(n) == v.t * z3.ToReal(m))
-            nd = (n, m)
+            nd = (n, m, v.t)
             st.ghost[key] = nd
         return ex.ok(SInt(nd[0] if attr == 'numerator' else nd[1]), st)
     return None
